@@ -389,3 +389,25 @@ dec_matrix!(c01_dec_matrix_nest, Nest, 19, 22, |_s: &mut [u8; 4]| kani::any::<Ne
 enc_matrix!(c01_enc_matrix_str, &str, 5, 8, |s: &mut [u8; 4]| -> &str { let r: &str = any_str(s); unsafe { core::mem::transmute::<&str, &'static str>(r) } });
 //@ tier=thorough class=core cap=1500 bounds="every &str of 0..=4 bytes; from_bytes/take_from_bytes (borrowing input) and from_io (borrowing scratch)"
 dec_matrix!(c01_dec_matrix_str, &str, 5, 8, |s: &mut [u8; 4]| -> &str { let r: &str = any_str(s); unsafe { core::mem::transmute::<&str, &'static str>(r) } }, |a: &&str, b: &&str| a.as_bytes() == b.as_bytes());
+
+#[kani::proof]
+#[kani::unwind(8)]
+//@ tier=quick class=core cap=900 bounds="every &[u8] of 0..=3 bytes and every f32 through from_io with a scratch buffer of EXACTLY the needed size (and one byte more)"
+fn c01_io_exact_scratch() {
+    #[derive(Serialize, Deserialize)]
+    struct B<'a>(#[serde(with = "crate::types::bytes_as_bytes")] &'a [u8], f32);
+    let mut store = [0u8; 3];
+    let s = any_bytes(&mut store);
+    let v = B(s, f32::from_bits(kani::any()));
+    let mut buf = [0u8; 8];
+    let n = postcard::to_slice(&v, &mut buf).unwrap().len();
+    let need = s.len() + 4;
+    let extra: usize = kani::any();
+    kani::assume(extra <= 1);
+    let mut scratch = [0u8; 8];
+    let (back, (rd, unused)): (B, (&[u8], &mut [u8])) = postcard::from_io((&buf[..n], &mut scratch[..need + extra])).unwrap();
+    assert!(back.0 == v.0 && back.1.to_bits() == v.1.to_bits());
+    assert!(rd.len() == 0 && unused.len() == extra);
+    kani::cover!(s.len() == 0 && extra == 0, "empty payload with exact scratch");
+    kani::cover!(s.len() == 3 && extra == 0, "exact fit reachable");
+}
